@@ -249,6 +249,9 @@ UpdateIn(v, path, i, f, st) ==
           r == IF i = Len(path) THEN ApplySub(f, <<cur>>, st)
                ELSE IF cur.t = "nil" THEN R("unspec", NilV, st) ELSE UpdateIn(cur, path, i + 1, f, st)
       IN IF ~Ok(r) THEN r ELSE R("val", VecV([v.xs EXCEPT ![p.i + 1] = r.v]), r.st)
+    \* a level that is neither a hash map nor a vector (a set, a list, a scalar) is the wrong kind: an error, the
+    \* function is not applied (README: update, update-in supported for hash maps and vectors)
+    ELSE IF v.t \notin {"map", "vec", "nil"} THEN R("err", ErrV("builtin"), st)
     ELSE R("unspec", NilV, st)
 
 \* swap!: the update function is applied to the current value; when the atom was written meanwhile (by the update
@@ -351,6 +354,7 @@ CallBuiltin(name, a, st) ==
          ELSE IF a[1].t = "vec" /\ IsInt(a[2]) /\ a[2].i >= 0 /\ a[2].i < Len(a[1].xs) THEN
            LET r == ApplySub(a[3], <<a[1].xs[a[2].i + 1]>>, st)
            IN IF ~Ok(r) THEN r ELSE R("val", VecV([a[1].xs EXCEPT ![a[2].i + 1] = r.v]), r.st)
+         ELSE IF a[1].t \notin {"map", "vec", "nil"} THEN R("err", ErrV("builtin"), st)
          ELSE R("unspec", NilV, st)
     [] name = "update-in" ->
          IF n # 3 THEN R("err", ErrV("builtin"), st)
